@@ -196,6 +196,12 @@ class HoistSetupCallsIntoConditionals(RewritePattern):
         old_in_state = op.in_state
         assert isinstance(old_in_state, OpResult)
 
+        # only hoist setups that directly follow the scf.if in the same block. A setup nested in another
+        # op (e.g. in one branch of a later scf.if) only executes on some of the paths leaving the scf.if,
+        # hoisting it would make it execute on all of them.
+        if op.parent_block() is not op.in_state.owner.parent_block():
+            return
+
         # Step 1: Check that it's legal to move:
         # grab all launch op uses of the SSA value produced by the scf.if
         # this will only find things that happen *after* the scf.if, so nothing
